@@ -16,8 +16,12 @@ def main():
         seed = int(os.environ.get("VERIF_SEED", "0"))
     except ValueError:
         seed = 0
-    mod = importlib.import_module("checks." + a.prop.lower())
     run = vlib.Run(a.prop, tier, seed)
+    try:
+        mod = importlib.import_module("checks." + a.prop.lower())
+    except Exception:
+        run.obligation("machinery:check module loads", False, traceback.format_exc()[-3000:])
+        return run.finish()
     if a.replay:
         return mod.replay(run, json.load(open(a.replay)))
     try:
